@@ -287,6 +287,12 @@ func Alphabet(t *Type, reduced bool) []*V {
 		}
 		out = append(out, VMap(t, "k", x).D("map:one"), VMap(t).D("map:empty"), VMapNil(t).D("map:nil"), VMap(t, "k1", x, "k2", y).D("map:two"),
 			VMap(t, "k1", x, "k2", y, "k3", x, "k4", y, "k5", x).D("map:five"))
+		if len(e) > 2 {
+			// entries whose values all differ from one another (and are rarely empty): what an order-dependent
+			// fold over the entries needs to show
+			z, m := e[len(e)-1], e[len(e)/2]
+			out = append(out, VMap(t, "k1", x, "k2", z).D("map:two-distinct"), VMap(t, "k1", m, "k2", z, "k3", x).D("map:three-distinct"))
+		}
 		for i, k := range Strings(reduced) {
 			if i == 0 {
 				continue
